@@ -15,7 +15,7 @@ use std::collections::BTreeMap;
 pub fn def() -> PropDef {
     PropDef {
         id: "C09",
-        rule: "generated supported (k,r) of all classes (plus a share where only one dedicated rate supports the pair) x engine x data x received set: DefaultRateEncoder<E> bytes == bytes of the dedicated high/low encoder chosen by the rule as worded in the property; DefaultRateDecoder<E> restores from the dedicated encoder's shards and the dedicated decoder from the default encoder's; ReedSolomonEncoder/Decoder and one-shot encode/decode == DefaultRate codec with any engine; histories of resets on one default-rate object crossing the rate boundary, each round compared with the dedicated codec of the rule. non-trivial (measured): only one rate supports the pair, or both do and their recovery bytes differ for this input; distinct by full case",
+        rule: "generated supported (k,r) of all classes (plus a share where only one dedicated rate supports the pair) x engine x data x received set: DefaultRateEncoder<E> bytes == bytes of the dedicated high/low encoder chosen by the rule as worded in the property; DefaultRateDecoder<E> restores from the dedicated encoder's shards and the dedicated decoder from the default encoder's; ReedSolomonEncoder/Decoder and one-shot encode/decode == DefaultRate codec with any engine; histories of resets on one default-rate object crossing the rate boundary (independent configurations alternating with configurations derived from the previous one: values permuted or moved to a neighbour), each round compared with the dedicated codec of the rule. non-trivial (measured): only one rate supports the pair, or both do and their recovery bytes differ for this input; distinct by full case",
         assumptions: &["for equal next_power_of_two both rates provably produce the same bytes (single chunk), so the tie-break is unobservable there; such cases are counted as trivial"],
         parts,
     }
@@ -157,8 +157,15 @@ fn check_hist(c: &HistCase, st: &mut Stats) -> CheckResult {
     let mut dec = make_dec(kind, c.eng, first.k, first.r, first.b, None).map_err(|e| format!("new failed: {e:?}"))?;
     let mut prev_high: Option<bool> = None;
     let mut switches = 0;
+    let mut prev: Option<Cfg> = None;
     for (i, rc) in c.cfgs.iter().enumerate() {
-        let Cfg { k, r, b } = rc.orient(kind);
+        // every other step is a configuration derived from the previous one (its values permuted or
+        // one of them moved to a neighbour) instead of an independent draw
+        let Cfg { k, r, b } = match prev {
+            Some(p) if i % 2 == 1 && p.k + p.r < 4000 => crate::history::derived_cfg(kind, p, (c.seed >> (4 * i)) as u8 % 14),
+            _ => rc.orient(kind),
+        };
+        prev = Some(Cfg { k, r, b });
         if i > 0 {
             enc.reset(k, r, b).map_err(|e| format!("encoder reset({k},{r},{b}) failed: {e:?}"))?;
             dec.reset(k, r, b).map_err(|e| format!("decoder reset({k},{r},{b}) failed: {e:?}"))?;
